@@ -28,6 +28,7 @@ def scn_from_consts(fam, consts, sid, policy, extra=None):
          "empty": eval(consts["EmptyUnits"].replace("{", "[").replace("}", "]")),
          "workers": int(consts["MaxWorkers"]),
          "drop_after": None if consts["DropAfter"] == "99" else int(consts["DropAfter"]),
+         "calls_after_err": int(consts.get("CallsAfterErr", "0")),
          "policy": policy}
     if extra:
         s.update(extra)
